@@ -1,7 +1,7 @@
 (* Proofs about Model/Scale.v for C08 (statements are restated in Properties/C08.v).
    The fit applied after scaling is the one of Model/Convert.v; what it preserves is
    ConvertProofs.fit_spec (C09). *)
-From Coq Require Import Lia Setoid Morphisms.
+From Coq Require Import Lia Setoid Morphisms ZArith NArith ZifyBool ZifyN.
 From CL Require Import Base.StrLemmas Model.Convert Proofs.ConvertProofs Model.Scale.
 From CL Require Model.Analysis.
 Open Scope Q_scope.
@@ -442,6 +442,38 @@ Section WithApprox.
     Qed.
   End Recipes.
 End WithApprox.
+
+(* ------------------------------------------------------------------ Number::new_approx is exact *)
+(* the hypothesis [approx_exact] holds for the model of Number::new_approx in Model/Convert.v
+   (quantity.rs 735-780): the recorded error is the difference to the approximated value *)
+
+Lemma Qround_away_cases q : (Qround_away q = Qtrunc q \/ Qround_away q = Qtrunc q + 1 \/ Qround_away q = Qtrunc q - 1)%Z.
+Proof. unfold Qround_away. destruct (Qle_bool _ _); [destruct (Qle_bool 0 q)|]; auto. Qed.
+
+Lemma sat_u32_exact r t :
+  (r <= t + 1)%Z -> sat_u32 t <> u32_max -> (0 <? sat_u32 r)%N = true -> NQ (sat_u32 r) = inject_Z r.
+Proof.
+  unfold sat_u32, u32_max, NQ. intros H1 H2 H3. f_equal.
+  destruct (r <? 0)%Z eqn:R; [discriminate|]. destruct (t <? 0)%Z eqn:T; lia.
+Qed.
+
+Lemma new_approx_exact v cfg n : new_approx v cfg = Done (Some n) -> num_value n == v.
+Proof.
+  unfold new_approx. intro H. cbv zeta in H.
+  destruct (negb _); [discriminate|]. destruct (64 <? fc_max_den cfg)%N; [discriminate|].
+  destruct (Qle_bool v 0); [discriminate|].
+  destruct (_ || _) eqn:W; [discriminate|].
+  destruct (Qlt_bool (v - inject_Z (Qtrunc v)) _).
+  { injection H as <-. reflexivity. }
+  destruct (_ && _) eqn:C.
+  - injection H as <-. cbn [num_value].
+    apply andb_true_iff in C as [C C3]. apply andb_true_iff in C as [C1 C2].
+    apply orb_false_iff in W as [W1 W2]. apply N.eqb_neq in W2.
+    rewrite (sat_u32_exact (Qround_away v) (Qtrunc v)); [|destruct (Qround_away_cases v) as [E|[E|E]]; rewrite E; lia|exact W2|exact C2].
+    unfold NQ. cbn [Z.of_N]. field.
+  - destruct (tbl_lookup _ _) as [[num den]|]; [|discriminate].
+    match type of H with (if ?b then _ else _) = _ => destruct b end; [discriminate|]. injection H as <-. cbn [num_value]. ring.
+Qed.
 
 (* ------------------------------------------------------------------ default scaling and servings *)
 
